@@ -479,8 +479,9 @@ def _rec(c):
 
 def oracle(ctx):
     n_tree = ctx.scale(12000, 300000)
-    for c in tree_cases(ctx, n_tree, "tree"):
-        if ctx.out_of_time():
+    for n_done, c in enumerate(tree_cases(ctx, n_tree, "tree")):
+        if n_done > 1500 and ctx.time_left() < 0.75 * ctx.budget:
+            ctx.skip("tree stream cut by the time budget")
             break
         got = check_tree(ctx, c)
         ctx.case((c["text"], sorted(c["env"].items()), c["nounset"]), nontrivial=any(m in c["text"] for m in META),
@@ -489,6 +490,9 @@ def oracle(ctx):
     # (b) protected text
     r = ctx.subrng("protect")
     for i in range(ctx.scale(6000, 150000)):
+        if i > 500 and ctx.time_left() < 0.6 * ctx.budget:
+            ctx.skip("protect stream cut by the time budget")
+            break
         s = gen_plain(r)
         env = r.choice(ENVS)
         forms = [("backslash", esc_all(s)), ("double", '"' + esc_meta(s) + '"')]
@@ -504,6 +508,9 @@ def oracle(ctx):
     # (c) raw strings: never an internal exception
     r = ctx.subrng("raw")
     for i in range(ctx.scale(15000, 400000)):
+        if i > 1000 and ctx.time_left() < 0.5 * ctx.budget:
+            ctx.skip("raw stream cut by the time budget")
+            break
         s = gen_raw(r)
         env = r.choice(ENVS)
         got = impl_subst(s, env, r.random() < 0.5, False, TOOLS)
@@ -515,6 +522,9 @@ def oracle(ctx):
     # (d) infix == function-call form
     r = ctx.subrng("infix")
     for i in range(ctx.scale(2500, 60000)):
+        if i > 300 and ctx.time_left() < 0.4 * ctx.budget:
+            ctx.skip("infix stream cut by the time budget")
+            break
         e = gen_ifexpr(r, r.randrange(1, 4))
         env = r.choice(ENVS)
         sb = r.random() < 0.5
